@@ -306,7 +306,7 @@ def run_check(pid, tier, replay_case=None, quiet=False):
         unlisted.append((v, rp))
     cov = rep["coverage"]
     # auxiliary free-running pass under the race detector (thorough tier, or VERIF_RACE=1)
-    if cfg.get("race_test") and replay_case is None and (tier == "thorough" or os.environ.get("VERIF_RACE") == "1"):
+    if cfg.get("race_test") and replay_case is None and (tier == "thorough" or cfg.get("race_quick") or os.environ.get("VERIF_RACE") == "1"):
         renv = dict(env)
         renv.pop("VERIF_OUT", None)
         pr = go_test(ov, cfg["pkg"], cfg["race_test"], renv, 1800, extra_args=("-race",))
